@@ -34,7 +34,7 @@ impl Op {
     }
 }
 
-pub(crate) struct Plan { pub seed: u64, pub len: u64, pub fork_at: u64, pub ops: Vec<Op> }
+pub(crate) struct Plan { pub seed: u64, pub len: u64, pub fork_at: u64, pub ops: Vec<Op>, pub last_n: u64 }
 
 pub(crate) struct World {
     pub net: Option<Net>,
@@ -62,7 +62,7 @@ pub(crate) fn build(plan: &Plan) -> World {
     let main = BodyChain::new(&mut rng, flat_plan(8, 8, 5), plan.len + 2, 1 + plan.seed, &mut gen);
     let fork = main.fork(&mut rng, plan.fork_at, plan.len - plan.fork_at + 5, 9_000 + plan.seed, pool.clone(), 2);
     let storage = new_storage("verif-c08");
-    World { net: None, storage, main, fork, pool, on_fork: false, height: 0, peer: PeerIndex::new(1), consensus: dummy_consensus(), inbox: Vec::new(), last_n: LAST_N }
+    World { net: None, storage, main, fork, pool, on_fork: false, height: 0, peer: PeerIndex::new(1), consensus: dummy_consensus(), inbox: Vec::new(), last_n: plan.last_n }
 }
 
 impl World {
@@ -94,7 +94,7 @@ impl World {
                 match s {
                     Sent::GetBlockFilters(start) => { if start <= self.height { let m = serve_block_filters(bc, start, 7); let mut m2 = m; if start + 7 > self.height + 1 { m2 = serve_block_filters_upto(bc, start, self.height); } next.extend(net.fp_recv(p, filters_message(m2)).sent); } }
                     Sent::GetBlocksProof(req) => { match serve_blocks_proof(&bc.chain, &req) { Some(resp) => next.extend(net.lc_recv(p, blocks_proof_message(resp)).sent), None => next.extend(net.lc_recv(p, blocks_proof_new_tip(&bc.chain, self.height.min(bc.tip()))).sent) } }
-                    Sent::GetBlocks(hashes) => { for h in hashes { if let Some(n) = bc.chain.number_of(&h) { next.extend(net.sp_recv(p, send_block_message(bc.chain.block(n))).sent); } } }
+                    Sent::GetBlocks(hashes) => { for h in hashes { let other = if self.on_fork { &self.main } else { &self.fork }; /* a full node keeps the blocks of an abandoned branch and serves them by hash */ let blk = bc.chain.number_of(&h).map(|n| bc.chain.block(n)).or_else(|| other.chain.number_of(&h).map(|n| other.chain.block(n))); if let Some(b) = blk { next.extend(net.sp_recv(p, send_block_message(b)).sent); } } }
                     Sent::GetBlockFilterHashes(start) => { if start >= 1 && start <= self.height { next.extend(net.fp_recv(p, filter_hashes_message(bc, start, (start + 11).min(self.height))).sent); } }
                     Sent::GetBlockFilterCheckPoints(start) => { if start <= self.height { next.extend(net.fp_recv(p, check_points_message(bc, start, self.height, INTERVAL)).sent); } }
                     _ => {}
@@ -105,6 +105,11 @@ impl World {
     }
 
     pub(crate) fn exec(&mut self, op: &Op) {
+        if std::env::var("VERIF_DEBUG").is_ok() {
+            eprintln!("DBG exec {:?}: min {} records {:?} tip {} inbox {:?}", op, self.storage.get_min_filtered_block_number(),
+                self.net.as_ref().map(|n| matched_records(n).iter().map(|r| (r.0, r.1, r.2.iter().map(|x| (self.main.chain.number_of(&x.0), self.fork.chain.number_of(&x.0), x.1)).collect::<Vec<_>>())).collect::<Vec<_>>()),
+                self.net.as_ref().map(|n| Unpack::<u64>::unpack(&n.storage.get_tip_header().raw().number())).unwrap_or(0), self.inbox.iter().map(|x| format!("{:?}", x.1).chars().take(60).collect::<String>()).collect::<Vec<_>>());
+        }
         match op {
             Op::Init => { self.start(); }
             Op::Prove { on_fork, height } => {
@@ -181,7 +186,7 @@ impl World {
                 let net = self.net.as_mut().unwrap();
                 match s {
                     Sent::GetBlocksProof(req) => { match serve_blocks_proof(&bc.chain, &req) { Some(resp) => next.extend(net.lc_recv(p, blocks_proof_message(resp)).sent), None => next.extend(net.lc_recv(p, blocks_proof_new_tip(&bc.chain, self.height.min(bc.tip()))).sent) } }
-                    Sent::GetBlocks(hashes) => { for h in hashes { if let Some(n) = bc.chain.number_of(&h) { next.extend(net.sp_recv(p, send_block_message(bc.chain.block(n))).sent); } } }
+                    Sent::GetBlocks(hashes) => { for h in hashes { let other = if self.on_fork { &self.main } else { &self.fork }; /* a full node keeps the blocks of an abandoned branch and serves them by hash */ let blk = bc.chain.number_of(&h).map(|n| bc.chain.block(n)).or_else(|| other.chain.number_of(&h).map(|n| other.chain.block(n))); if let Some(b) = blk { next.extend(net.sp_recv(p, send_block_message(b)).sent); } } }
                     _ => {}
                 }
             }
@@ -286,6 +291,19 @@ fn make_plan(rng: &mut Rng, seed: u64) -> Plan {
     let fork_at = rng.range(len - 12, len - 5);
     // the first proof ends a little above the fork point, so that the later fork switch is within the remembered last-N headers
     let h1 = (fork_at + rng.range(1, 4)).min(len - 2);
+    if seed % 3 == 1 {
+        // pending records above the fork point at the moment of the fork switch: filtering starts just below the fork point, one
+        // batch ends at it, the next one lies entirely above it; nothing is downloaded before the peer switches to the other branch.
+        // (A crash inside the switch restarts the client with the records in the store only.)
+        let h1 = fork_at + 3;
+        let list: Vec<(usize, bool, u64)> = (0..3usize).map(|i| (i, true, fork_at - 2)).collect();
+        let ops = vec![Op::Init, Op::Prove { on_fork: false, height: h1 }, Op::SetScripts { cmd: 0, list },
+            Op::Filters { batch: 2 }, Op::Filters { batch: 8 }, Op::Prove { on_fork: true, height: h1 + 7 },
+            Op::Download, Op::Filters { batch: 8 }, Op::Download, Op::Filters { batch: 8 }, Op::Download];
+        // last-N 4: the switch is 7 blocks ahead (sampled regime, the request starts at the stored tip, the honest answer carries a
+        // reorg section) and 3 blocks deep (the fork point is remembered): the one path on which commit_prove_state rolls back
+        return Plan { seed, len, fork_at, ops, last_n: 4 };
+    }
     let mut ops = vec![Op::Init, Op::Prove { on_fork: false, height: h1 }];
     let n_scripts = rng.range(1, 2);
     let list: Vec<(usize, bool, u64)> = (0..n_scripts).map(|i| (i as usize, true, 0u64)).collect();
@@ -304,7 +322,7 @@ fn make_plan(rng: &mut Rng, seed: u64) -> Plan {
             _ => ops.push(Op::Filters { batch: rng.range(2, 9) }),
         }
     }
-    Plan { seed, len, fork_at, ops }
+    Plan { seed, len, fork_at, ops, last_n: LAST_N }
 }
 
 fn skip_first_tag(op: &Op, k: u64) -> bool { matches!(op, Op::SetScripts { .. }) && k % 2 == 0 }
@@ -314,7 +332,7 @@ struct Snapshot { scripts: Vec<(usize, bool, u64)>, min_filtered: u64, tip: u64,
 /// reopen, read everything an RPC would read, and judge the index against the chain the honest peer serves
 fn judge(w: &mut World, starts: &[(usize, bool, u64)]) -> Snapshot {
     let mut problems = Vec::new();
-    let opened = catch(|| { let genesis = w.main.chain.genesis_block(); Net::over(w.storage.clone(), genesis, &w.consensus, LAST_N, 1, INTERVAL) });
+    let opened = catch(|| { let genesis = w.main.chain.genesis_block(); Net::over(w.storage.clone(), genesis, &w.consensus, w.last_n, 1, INTERVAL) });
     let net = match opened { Some(n) => n, None => { return Snapshot { scripts: vec![], min_filtered: 0, tip: 0, pending: 0, problems: vec![format!("[C08-store-unusable-after-crash] the client aborts while starting on the store the crash left behind: {}", super::last_panic())] }; } };
     let read = catch(|| {
         let scripts: Vec<(usize, bool, u64)> = net.storage.get_filter_scripts().iter().map(|ss| (w.pool.iter().position(|s| s == &ss.script).unwrap_or(99), ss.script_type == ScriptType::Lock, ss.block_number)).collect();
